@@ -57,6 +57,7 @@ type waitRec struct {
 	check func() bool // for non-channel waits: can proceed now?
 	what  string
 	ins   ssa.Instruction
+	timer *ChanObj // time.Sleep under the discrete-event clock: the timer this thread sleeps on
 }
 
 func (m *Machine) newChan(capacity int, elem types.Type) *ChanObj {
@@ -504,6 +505,9 @@ func (m *Machine) fireTimer(ch *ChanObj) {
 // timerAwaited reports whether some parked thread is waiting on the timer channel.
 func (m *Machine) timerAwaited(ch *ChanObj) bool {
 	for _, t := range m.threads {
+		if t.State == tBlocked && t.Wait != nil && t.Wait.timer == ch {
+			return true
+		}
 		if t.State == tBlocked && t.Wait != nil && t.Wait.kind == "chan" && !t.Wait.done {
 			for _, c := range t.Wait.cases {
 				if c.ch == ch {
